@@ -114,6 +114,18 @@ class C09(Check):
         for spec in worlds.rich_specs():
             if self.tier == "thorough" or spec.seqid == self.seed % 3:
                 yield ("db", spec)
+        # name-collision family: three or four alleles of one number with pairwise different core sets,
+        # each optionally labelled with that number
+        for names in (("1.001", "1.002", "1.003"), ("2.001", "2.002", "2.003", "2.004")):
+            num = names[0].split(".")[0]
+            cores = [(), (0,), (1,), (0, 1), (0, 2), (1, 3)]
+            for vs in itertools.permutations(cores, len(names)):
+                if len(names) == 4 and (hash(vs) + self.seed) % (12 if self.tier == "quick" else 2):
+                    continue
+                for labs in itertools.product((None, num), repeat=len(names)):
+                    if len(names) == 4 and labs.count(num) not in (3, 4):
+                        continue
+                    yield ("table", tuple((n, v, l, None) for n, v, l in zip(names, vs, labs)))
         sets = [tuple(c) for k in range(0, 4) for c in itertools.combinations(range(4), k)]
         for nm in itertools.combinations(NAMES, 2):
             for vs in itertools.product(sets, repeat=2):
@@ -123,7 +135,7 @@ class C09(Check):
         if st[0] != "table":
             return
         table = st[1]
-        if len(table) > 3:
+        if len(table) >= 3:
             return
         k = 0
         step = 4 if self.tier == "quick" else 1
